@@ -52,11 +52,11 @@ ASSUMPTIONS = ['letter classes and case are modelled on ASCII (Base/PyChar.v); n
                'Python str.isspace / regex \\s = the 29 code points of Base/PyChar.is_space (re-measured on every run over all of Unicode)']
 PARTIAL = ['token_case_rule holds only for tokens without a backslash at brace level 1 (outside special characters) before the deciding character '
            '(token_case_rule_partial); for the others the code deviates from the property text (token_case_rule_refuted, finding FC04a)',
-           'more than 100 nested braces in a token that does not start with a letter make Person() raise BibTeXError (a pybtex error, parse_name_guard): '
-           'parse_name_total says "no foreign exception, no divergence" for every string, parse_name_ok gives success for every string with <= 100 opening braces',
-           'that split_tex_string splits exactly at the brace-level-0 separators is NOT proved for the model (proved: only separator characters are dropped '
-           '(chars_preserved), braced groups are never split (braced_groups_atomic), every level-0 whitespace character splits (level0_whitespace_splits)); it is checked by the oracle with an independent tokenizer on every generated '
-           'string whose braces are all closed; for strings with an unclosed group the code splits at inner braces and the oracle only demands conservation of characters']
+           'more than 100 nested braces in a token that does not start with a letter make Person() raise BibTeXError (a pybtex error, parse_name_guard, '
+           'known finding FC04b, reported by the oracle): parse_name_total says "no foreign exception, no divergence" for every string, parse_name_ok gives success for every string with <= 100 opening braces',
+           'tokenizer_spec (split_tex_string(s) = the brace-level tokenizer of Spec/Names.v) is proved for strings whose braces are all closed; for strings with an '
+           'unclosed group the code splits at inner braces, the property text fixes no brace level there and the oracle only demands conservation of characters; '
+           'the comma split has conservation and atomicity theorems only, its exact boundaries are checked by the oracle']
 
 def describe(fn, a):
     return {'function': FUNCS[fn][0], 'args': [S(x) for x in a]}
@@ -185,11 +185,11 @@ def o_content(x):
 def oracle(fn, arg, out):
     strs = [S(x) for x in arg]
     closed = all(o_profile(x)[0] for x in strs)
-    deep = max(o_profile(x)[1] for x in strs) > 100
     if out[0] == 2:
         return 'a foreign (non-pybtex) exception was raised for %r' % (strs,)
     if out[0] == 1:
-        return None if deep else 'a pybtex error was raised (not merely reported) for %r' % (strs,)
+        return 'a pybtex error was raised (not merely reported): parsing does not succeed for %s' % (
+            ', '.join(repr(x) if len(x) < 60 else repr(x[:25] + '...' + x[-25:]) + ' (length %d, brace depth %d)' % (len(x), o_profile(x)[1]) for x in strs),)
     if fn in (4, 5):
         got = [S(t) for t in out[1]]
         if closed:
@@ -278,7 +278,14 @@ def _sig_fc04a(kind, fn, arg, detail):
     arg2 = norm([_neutralise(strs[0])] + strs[1:])
     return oracle(fn, arg2, FUNCS[fn][1](arg2)) is None
 
-KNOWN_SIGNATURES = {'FC04a': _sig_fc04a}
+# known finding FC04b: the recursion guard of BibTeXString (max_level = 100): a token that does not start with a letter and
+# nests braces more than 100 deep makes Person() raise BibTeXError('too many nested braces')
+def _sig_fc04b(kind, fn, arg, detail):
+    if kind != 'oracle' or fn not in (1, 2) or not str(detail).startswith('a pybtex error was raised'):
+        return False
+    return max(o_profile(S(x))[1] for x in arg) > 100
+
+KNOWN_SIGNATURES = {'FC04a': _sig_fc04a, 'FC04b': _sig_fc04b}
 
 def replay_known(finding):
     p = finding.get('pinned')
@@ -312,7 +319,7 @@ ALPHA = 'aB ~,{}\\'
 POOL = ['Jean', 'de', 'la', 'von', 'Fontaine', '{Van}', "{\\'E}douard", "{\\'e}x", '1st', '{}', 'Jean-Paul', 'A.~B.', 'jr',
         '{\\relax van}', '\\LaTeX', "d'Aviano", '{\\a{b}', 'x\\ y', 'q\\~r', '{von der}', '{\\o}', '{\\OE}x', "{\\'{e}}", "{\\'{E}}b",
         '{A}b', '{a}B', '{{\\e}}x', '{-}x', '-x', '.Y', '{\\1a}', '{\\1A}', '{\\ab c}', '{\\ab C}', 'III', "{\\'}", '{x}{\\y Z}', 'a}b', 'M{\\"u}ller', "{\\'e"]
-PINNED = ['~', '~ ~', '\\ ', ',', ',,', ',,,', '{', '}', '{\\', '{\\}', 'a,b,c,d,e', 'a,b,c\\,d', '~,~', ' , ', 'Jean {a\\b}c Last', '{a\\b}c Last, Jean',
+PINNED = ['x ' + '{' * 101 + ' y', '~', '~ ~', '\\ ', ',', ',,', ',,,', '{', '}', '{\\', '{\\}', 'a,b,c,d,e', 'a,b,c\\,d', '~,~', ' , ', 'Jean {a\\b}c Last', '{a\\b}c Last, Jean',
           'Jean {ab}c Last', 'Jean {\\o} Last', '{' * 101 + 'a', 'a ' + '{' * 101 + 'a', '{' * 100 + 'a' + '}' * 100 + ' b', 'de la Fontaine', 'Jean de la Fontaine',
           'de la Fontaine, Jean', 'de la Fontaine, jr, Jean', 'Jean de', 'de', 'jean de la fontaine', 'Jean de La Fontaine du Bois Joli', 'Jean {de} la Fontaine',
           '{a{b c d', '{a{b, c', 'a{b} c}d {e', 'x\\~y z', 'x\\\\~y z', 'x\\\\ y', 'a b', 'a b　c', 'A,\\ B', '\\', 'a\\', '{\\a b} c', '{\\a, b}, c']
